@@ -18,6 +18,7 @@ type Clause struct {
 	Text string
 	E    Expr
 	Why  string // assume ... because "why"
+	RangeBound any // synthesised range-loop invariant: the ssa.Value of the length
 	Callee string // assume at call <callee>#<k>
 	CallOrd int
 	File string
@@ -38,6 +39,7 @@ type Contract struct {
 	LoopMod    map[int]*Clause
 	CallAssumes []*Clause // assume at call <callee>#<k>: E because "..."
 	CallAsserts []*Clause // assert at call <callee>#<k>: E   (obligation before the call)
+	Reads      *Clause // heap footprint of a pure function: fields(T) entries (nothing = no heap)
 	Preserves  *Clause // locations (usually fields(T)) left unchanged even under modifies *
 	Callbacks  map[string]*Contract // contracts of func-typed parameters
 	Modifies   *Clause // nil => default: nothing (for verified functions), see gen
@@ -228,7 +230,7 @@ func ParseSpecFile(path string, pkgName string) (*SpecFile, error) {
 			}
 			k, r3 := splitWord(r2)
 			pend = &pending{kind: "loop-" + k, loop: idx, text: r3, line: ln}
-		case "requires", "ensures", "assume", "modifies", "panics_if", "decreases", "witness", "preserves", "assert":
+		case "requires", "ensures", "assume", "modifies", "panics_if", "decreases", "witness", "preserves", "assert", "reads":
 			pend = &pending{kind: word, text: rest, line: ln}
 		case "callback":
 			// callback <param> <clause...>: contract of a func-typed parameter
@@ -327,6 +329,19 @@ func addClause(c *Contract, kind string, loop int, text, file string, line int) 
 	}
 	cl := &Clause{Kind: kind, Loop: loop, Text: text, File: file, Line: line}
 	switch kind {
+	case "reads":
+		t := strings.TrimSpace(text)
+		if t != "nothing" && t != "" {
+			for _, part := range splitTop(t, ',') {
+				e, err := parseModEntry(part)
+				if err != nil {
+					return fmt.Errorf("reads %q: %v", part, err)
+				}
+				cl.Mods = append(cl.Mods, e)
+			}
+		}
+		c.Reads = cl
+		return nil
 	case "assert":
 		t := strings.TrimSpace(text)
 		if !strings.HasPrefix(t, "at call ") {
